@@ -8,7 +8,7 @@ patch="$1"; shift
 git -C /repo apply $rev "$patch" || { echo "patch does not apply"; exit 2; }
 mkdir -p /tmp/mutant-out; cp -f /verif/known_findings.json /tmp/mutant-out/ 2>/dev/null
 for c in "$@"; do
-    VERIF_SEED="${VERIF_SEED:-1}" ./check "$c" quick --out /tmp/mutant-out > /tmp/mutant-out/$c.log 2>&1
+    PBSIM_FAST="${PBSIM_FAST:-}" VERIF_SEED="${VERIF_SEED:-1}" ./check "$c" quick --out /tmp/mutant-out > /tmp/mutant-out/$c.log 2>&1
     echo "$c exit=$? $(grep -c '^VIOLATION' /tmp/mutant-out/$c.log) violation line(s): $(grep -m1 -B2 '^VIOLATION' /tmp/mutant-out/$c.log | head -1 | cut -c1-220)"
 done
 git -C /repo checkout -- .
